@@ -29,5 +29,16 @@ PROPS["C02"] = dict(
                  "non-type-0 headers with an extended timestamp are excluded while finding rtmp.ext-ts.delta is open"],
 )
 
+PROPS["C05"] = dict(
+    pkg="c05", level="exploration",
+    rule="AMF0 value trees built through the public API (round trip, Size, re-marshal, wire order), an operation-sequence model of one container, and byte strings generated from the wire grammar "
+         "with trailing bytes (Size() == bytes consumed); per-check rules under coverage.checks",
+    quick=dict(timeout=600), thorough=dict(shards=16, timeout=3000),
+    technique="property-based testing (rapid): round-trip + Size laws on generated trees, model-based operation sequences on a container, grammar-generated decodable byte strings with a known length",
+    level_text="Random exploration with boundary-biased generators (raw float bit patterns, 65535-byte strings, empty/binary/repeated keys) and shrinking; the value space is unbounded, so no exhaustiveness is claimed.",
+    level_note="Trusts the harness' AMF0 value model and its length computation (internal/ref/amf0ref, written from the AMF0 specification; strict arrays in the library's keyed layout here). Depth <= 8, <= 40 nodes per tree.",
+    assumptions=["internal/ref/amf0ref computes the encoded length of a value correctly", "null/undefined are identified by their one-byte encoding (types are unexported)"],
+)
+
 NOT_APPLICABLE = {}
 HOOK_COMMITS = []
